@@ -263,7 +263,7 @@ namespace Givaro
     inline std::istream&
     ModularBalanced<int32_t>::read(std::istream& is, Element& x) const
     {
-        Element tmp;
+        Element tmp = 0;
         is >> tmp;
         init(x, tmp);
         return is;
